@@ -82,16 +82,16 @@ Theorem seconds_roundtrip : forall n : Z, (Z.abs n < 2^53)%Z -> RN (IZR n) = IZR
 Proof. exact seconds_roundtrip_lemma. Qed.
 Print Assumptions seconds_roundtrip.
 
-(* microsecond resolution, non-negative offsets below 2^32 s (136 years).  PARTIAL: the negative half
-   (dates before the 2001 epoch at microsecond resolution, negative durations) is covered by the
-   correspondence stream only; the full statement is  forall u, |u| < 2^32*10^6 -> ...  *)
-Theorem micros_roundtrip_partial : forall u : Z, (0 <= u < 2^32 * 10^6)%Z ->
+(* microsecond resolution, both signs, |offset| < 2^32 s (136 years either side of the 2001 epoch; durations of
+   +-100 years): total_seconds() is one correctly rounded division, timedelta(seconds=f) splits with modf
+   (truncation towards zero), multiplies the fraction by 10^6 in binary64 and rounds half-even *)
+Theorem micros_roundtrip : forall u : Z, (Z.abs u < 2^32 * 10^6)%Z ->
   let f := RN (IZR u / 1000000) in
-  let q := Zfloor f in
+  let q := Ztrunc f in
   let g := RN ((f - IZR q) * 1000000) in
   (q * 10^6 + ZnearestE g)%Z = u.
-Proof. exact micros_roundtrip_nonneg_lemma. Qed.
-Print Assumptions micros_roundtrip_partial.
+Proof. exact micros_roundtrip_lemma. Qed.
+Print Assumptions micros_roundtrip.
 
 (* non-vacuity *)
 Example d128_example : unpack_decimal (pack_decimal true 1234 4 (-2)) = (true, 12340000000000000%N, (-15)%Z).
